@@ -41,3 +41,62 @@ def run_mode(cfg, data, chunks, rec=None, on_read=None, interrupt_at=None, scrip
         return res
     return rig.run_main(argv, data, chunks, script=script, on_read=on_read, interrupt_at=interrupt_at,
                         stdin_errors=stdin_errors, rec=rec, capture=capture)
+
+
+def observe_file(sc, st, rec=None, script=('quit',), cfg_override=None):
+    """run the whole stream through main.main (file/pipe/run per config) with a Tracker attached"""
+    from .. import track
+    cfg = dict(sc['config'])
+    if cfg_override:
+        cfg.update(cfg_override)
+    rec = rec or rig.Recorder()
+    tr = track.Tracker(rec)
+    argv = argv_for(cfg)
+    if cfg['mode'] == 'run':
+        shim = runshim.RunShim(st.data, cfg.get('writes') or cfg.get('chunks') or [1 << 20], cfg.get('cap', 65536),
+                               cfg.get('status', 0), cfg.get('sched_seed', 0), cfg.get('environ') or BASE_ENV, rec)
+        res = rig.run_main(argv, b'', [1], script=script, rec=rec, run_shim=shim, tracker=tr)
+        res.shim = shim
+    else:
+        res = rig.run_main(argv, st.data, cfg.get('chunks') or [1 << 20], script=script, rec=rec, tracker=tr)
+    return res, tr
+
+
+def observe_component(sc, st, rec=None, post_cmds=(), filter_text=None, break_text=None, color=False):
+    """component rig: Parser + ConnectionManager + Controller, commands interleaved between reads"""
+    from .. import track
+    rec = rec or rig.Recorder()
+    tr = track.Tracker(rec)
+    steps = []
+    for s in st.steps:
+        if s[0] == 'line':
+            steps.append(('line', s[1]))
+        elif s[0] == 'cmd':
+            steps.append(('cmd', s[1]))
+    res = rig.run_component(steps, filter_text=filter_text, break_text=break_text,
+                            show_unprocessed=not sc['config'].get('suppress', False), color=color, rec=rec,
+                            listener_factory=lambda cm: tr.make(), post_cmds=post_cmds)
+    return res, tr
+
+
+def world_conn_order(st):
+    """world connection indexes in order of first appearance in the stream"""
+    from .. import world as W
+    order = []
+    for _, it in st.lines:
+        if isinstance(it, W.Closure) and it.conn not in order:
+            order.append(it.conn)
+    return order
+
+
+class Viol:
+    def __init__(self):
+        self.list = []
+        self.counters = {}
+
+    def add(self, sig, trigger, detail):
+        if not any(v['sig'] == sig and v['trigger'] == trigger for v in self.list):
+            self.list.append({'sig': sig, 'trigger': trigger, 'detail': detail})
+
+    def bump(self, k, n=1):
+        self.counters[k] = self.counters.get(k, 0) + n
